@@ -75,6 +75,9 @@ def draw_case(rng: numpy.random.Generator, nq=None, nat=None, low_t: bool = True
     ptot = rng.uniform(-0.01, 0.05, (nt, ntv))
     pst = rng.uniform(-0.01, 0.05, ntv)
     cv = rng.uniform(1e-7, 1e-3, (nt, ntv))
+    if rng.random() < 0.3:
+        # "all positive heat-capacity fields": also the tiny ones of a stiff one-atom cell at low temperature
+        cv = 10.0 ** rng.uniform(-13.0, -3.0, (nt, ntv))
     return dict(nq=nq, na=nat, np=np_, v=v, t=t, freq=freq, g=g, kp=kp, w=w, ptot=ptot, pst=pst, cv=cv)
 
 
